@@ -258,9 +258,15 @@ PROPS = {
         "assumptions": EVAL_ASSUME,
     },
     "C04": {
-        "proof_modules": ["GrolProofs.Props.C04"],
+        "proof_modules": ["GrolProofs.Props.C04", "GrolProofs.MemoMono", "GrolProofs.MemoFootprint", "GrolProofs.MemoKey"],
         "theorems": ["Grol.E.C04.off_get", "Grol.E.C04.off_set", "Grol.E.C04.replay", "Grol.E.C04.store_condition",
-                     "Grol.E.C04.set_get", "Grol.E.C04.get_pure"],
+                     "Grol.E.C04.set_get", "Grol.E.C04.get_pure",
+                     "Grol.E.C04.miss_monotone", "Grol.E.C04.quiet_inherited", "Grol.E.C04.no_del_in_quiet_call",
+                     "Grol.E.C04.quiet_makeRef", "Grol.E.C04.quiet_get", "Grol.E.C04.no_function_write_in_quiet_call", "Grol.E.C04.no_function_assignment_in_quiet_call", "Grol.E.C04.purity_footprint",
+                     "Grol.E.envGet_quiet", "Grol.E.functionChanged_loud", "Grol.E.envStoreAt_loud", "Grol.E.no_function_change_during", "Grol.E.no_function_write_during", "Grol.E.C04.key_identity", "Grol.E.keyEq_eq",
+                     "Grol.E.allTr", "Grol.E.eval_grows", "Grol.E.applyFunction_grows", "Grol.E.quiet_bind", "Grol.E.quiet_during",
+                     "Grol.E.triggerNoCache_loud", "Grol.E.evalDelete_loud", "Grol.E.finishCall_quiet", "Grol.E.applyFunction_quiet",
+                     "Grol.E.makeRef_go_quiet", "Grol.E.no_trigger_during", "Grol.E.no_del_during", "Grol.E.nested_call_during"],
         "suites": [["eval", "C04"], "extcache"],
         "rule": EVAL_RULE + " C04 statement: per input, output/value/error/panic are identical with the cache on and off (both register settings).",
         "trusted_base": EVAL_TB,
